@@ -12,5 +12,5 @@ CONSTANTS
   MaxResp = 3
   MaxCalls = 4
   Families = {"read"}
-  Lite = FALSE
+  Level = "export"
 INVARIANT Props
